@@ -45,7 +45,7 @@ INVENTORY = {
     'ann_backend::FlatGraph::distance_to_unchecked': {'vector_at_unchecked'},
     'ann_backend::FlatGraph::greedy_descent_layer': {'distance_to_unchecked'},
     'ann_backend::FlatGraph::merge_and_prune_reverse_edge_with_scratch': {'distance_between_dense_unchecked'},
-    'ann_backend::FlatGraph::prefetch_dense_vector': {'_mm_prefetch', 'add'},
+    'ann_backend::FlatGraph::prefetch_dense_vector': {'_mm_prefetch'},
     'ann_backend::FlatGraph::prefetch_level0_neighbor_lookahead': {'neighbor_unchecked'},
     'ann_backend::FlatGraph::search_at_layer_into': {'count_unchecked', 'prefetch_level0_neighbor_lookahead', 'neighbor_unchecked', 'mark_if_unvisited_unchecked', 'distance_to_unchecked'},
     'ann_backend::FlatGraph::search_layer0_exact': {'count_unchecked', 'prefetch_level0_neighbor_lookahead', 'neighbor_unchecked', 'mark_if_unvisited_unchecked', 'distance_to_unchecked'},
@@ -60,7 +60,7 @@ INVENTORY = {
     'hnsw_backend::check_disk_space': {'zeroed', 'statvfs'},
 }
 REASONS = {'hnsw_backend::check_disk_space': 'statvfs FFI on a NUL-terminated path with a zeroed out-struct; result checked',
-           'ann_backend::FlatGraph::prefetch_dense_vector': 'prefetch hint: the address is never dereferenced; the id is guarded before record_ptr (R1)',
+           'ann_backend::FlatGraph::prefetch_dense_vector': 'prefetch hint: the address is never dereferenced; the id is guarded before record_ptr (R1); further cache lines are addressed with wrapping_add (R5)',
            'ann_backend::PackedLevel0::record_ptr': 'pointer arithmetic inside the packed buffer; callers pass validated ids (R1)',
            'ann_backend::PackedLevel0::vector_at': 'checked accessor: node_start refuses ids >= len before from_raw_parts over same-width words'}
 DIM_RX = r'(?:arg|cap|var):\w+→(?:FlatGraph|HnswVectorIndex)\.dimension'
@@ -546,8 +546,95 @@ def r4(ctx, prog):
     ctx.floor('C17.R4', 'kernels with vector memory accesses', n_fn, 12, '4 kernels x 3 ISA levels')
 
 
+def r5(ctx, prog):
+    ctx.rule('C17.R5', 'packed record layout: with c = cap, d = dimension, v = vector_offset_words, r = record_words the only constructor sets v = 1 + c and '
+                       'r = ⌈(v + d)/A⌉·A (so r ≥ v + d); the four fields are never written again; data grows only by exactly r words per node (and never '
+                       'shrinks, R1); the accessors address id·r (count, record_ptr), id·r + 1 + idx (neighbour, idx < count ≤ c by the clamp) and '
+                       'id·r + v with length d (vector). With id < len() = ⌊|data|/r⌋ (R1) this gives id·r + v + d ≤ (id+1)·r ≤ |data| and '
+                       'id·r + 1 + idx < (id+1)·r: every unchecked access lies inside the node\'s own record')
+    nw = ctx.body('C17.R5', 'PackedLevel0::new')
+    if nw is None:
+        return
+    of = flow.Origin(nw)
+    aggs = [st['rv'] for b in prog.bodies.values() if b.crate == 'kyrodb_engine' and b.kind != 'Promoted' for blk in b.blocks for st in blk['s']
+            if st.get('rv', {}).get('k') == 'agg' and st['rv'].get('adt', '').endswith('ann_backend::PackedLevel0') and 'record_words' in (st['rv'].get('fields') or [])]
+    in_new = [st['rv'] for blk in nw.blocks for st in blk['s'] if st.get('rv', {}).get('k') == 'agg' and st['rv'].get('adt', '').endswith('ann_backend::PackedLevel0')]
+    ctx.inst('C17.R5', 'PackedLevel0', 'constructed only in PackedLevel0::new (and by derived Clone)', len(aggs) >= 1 and len(in_new) == 1 and len(aggs) <= 2, 'struct literals: %d (in new: %d)' % (len(aggs), len(in_new)))
+    if in_new:
+        f = dict(zip(in_new[0]['fields'], [flow.render(of.of_operand(o)) for o in in_new[0]['ops']]))
+        C, D = f.get('cap', '?'), f.get('dimension', '?')
+        esc = re.escape
+        v_ok = bool(re.match(r'^\(1 Add(WithOverflow)? %s\)(\.0)?$' % esc(C), f.get('vector_offset_words', '')))
+        m = re.match(r'^\(num::div_ceil\(\((.+) Add(?:WithOverflow)? %s\)(?:\.0)?, (\d+)\) Mul(?:WithOverflow)? (\d+)\)(?:\.0)?$' % esc(D), f.get('record_words', ''))
+        r_ok = bool(m) and m.group(1) == f.get('vector_offset_words') and m.group(2) == m.group(3) and int(m.group(2)) >= 1
+        pos = bool(re.match(r'^Ord::max\(arg:cap, 1\)$', C)) and bool(re.match(r'^Ord::max\(arg:dimension, 1\)$', D))
+        ctx.inst('C17.R5', 'PackedLevel0::new', 'v = 1 + c, r = ⌈(v + d)/A⌉·A, c ≥ 1, d ≥ 1', v_ok and r_ok and pos and f.get('data') == 'Vec::new()',
+                 'cap=%s; dimension=%s; vector_offset_words=%s; record_words=%s; data=%s' % (C, D, f.get('vector_offset_words'), f.get('record_words', '')[:90], f.get('data')))
+    wr = {}
+    for b in prog.bodies.values():
+        if b.crate != 'kyrodb_engine' or b.kind == 'Promoted':
+            continue
+        for fld in ('cap', 'dimension', 'record_words', 'vector_offset_words'):
+            if util.assign_blocks(b, r'ann_backend::PackedLevel0\.%s$' % fld):
+                wr.setdefault(fld, []).append(b.short)
+    ctx.inst('C17.R5', 'PackedLevel0', 'layout fields are never reassigned', not wr, 'assignments: %s' % wr)
+    pn = ctx.body('C17.R5', 'PackedLevel0::push_node')
+    if pn is not None:
+        po = flow.Origin(pn)
+        ext = [c for c in pn.calls if c.callee and flow.short(c.callee).endswith('Vec::extend') or (c.callee and re.search(r'Extend.*::extend$', c.callee))]
+        grow_all = [c for c in prog.all_calls() if c.callee and c.body.crate == 'kyrodb_engine' and re.search(r'(Vec::(push|extend|extend_from_slice|resize|insert|append)|Extend<.*>::extend|Extend.*::extend)$', flow.short(c.callee)) and c.args and
+                    flow.render(flow.Origin(c.body).of_operand(c.args[0])).endswith('PackedLevel0.data')]
+        src = flow.render(po.of_operand(ext[0].args[1])) if ext else ''
+        ctx.inst('C17.R5', _fn(pn), 'data grows only here, by exactly record_words zeroed words per node',
+                 len(grow_all) == 1 and grow_all[0].body is pn and bool(re.match(r'^repeat_n::repeat_n\(0, arg:self→PackedLevel0\.record_words\)$', src)),
+                 'growth calls on data: %s; extend source: %s' % (sorted(set(_fn(c.body) for c in grow_all)), src[:70]))
+    ln = ctx.body('C17.R5', 'PackedLevel0::len')
+    if ln is not None:
+        r_ = flow.render(flow.Origin(ln).of_local(0))
+        ctx.inst('C17.R5', _fn(ln), 'len() = ⌊|data| / r⌋', r_ == '(Vec::len(arg:self→PackedLevel0.data) Div arg:self→PackedLevel0.record_words)', r_)
+    BASE = r'\(arg:dense_id Mul(?:WithOverflow)? arg:self→PackedLevel0\.record_words\)(?:\.0)?'
+    SHAPES = [('PackedLevel0::count_unchecked', 'slice::get_unchecked', 1, r'^%s$' % BASE, 'id·r'),
+              ('PackedLevel0::neighbor_unchecked', 'slice::get_unchecked', 1, r'^\(\(%s Add(?:WithOverflow)? 1\)(?:\.0)? Add(?:WithOverflow)? arg:idx\)(?:\.0)?$' % BASE, 'id·r + 1 + idx'),
+              ('PackedLevel0::vector_at_unchecked', 'const_ptr::add', 1, r'^\(%s Add(?:WithOverflow)? arg:self→PackedLevel0\.vector_offset_words\)(?:\.0)?$' % BASE, 'id·r + v'),
+              ('PackedLevel0::record_ptr', 'const_ptr::add', 1, r'^%s$' % BASE, 'id·r')]
+    for fn, callee, ai, rx, what in SHAPES:
+        b = ctx.body('C17.R5', fn)
+        if b is None:
+            continue
+        bo = flow.Origin(b)
+        cs = [c for c in b.calls if c.callee and flow.short(c.callee).endswith(callee) and not c.exp]
+        offs = [flow.render(bo.of_operand(c.args[ai])) for c in cs]
+        base_ok = all(flow.render(bo.of_operand(c.args[0])) in ('arg:self→PackedLevel0.data', 'Vec::as_ptr(arg:self→PackedLevel0.data)') for c in cs)
+        ctx.inst('C17.R5', _fn(b), 'addresses %s in data' % what, len(cs) == 1 and bool(re.match(rx, offs[0])) and base_ok, 'offset(s): %s' % offs)
+    pd = ctx.body('C17.R5', 'FlatGraph::prefetch_dense_vector')
+    if pd is not None:
+        adds = [c for c in pd.calls if c.callee and re.search(r'(const_ptr|mut_ptr)::(add|offset|sub)$', flow.short(c.callee)) and not c.exp]
+        wr = [c for c in pd.calls if c.callee and re.search(r'(const_ptr|mut_ptr)::wrapping_add$', flow.short(c.callee))]
+        ctx.inst('C17.R5', _fn(pd), 'cache lines beyond the record start are addressed without in-bounds pointer arithmetic', not adds,
+                 ('`ptr.add(line * 64)` at %s promises an in-bounds result, but a record is only record_words·4 ≥ 64 bytes: for the last node of a graph with 64-byte records '
+                  '(1 + cap + dimension ≤ 16 words, e.g. M = 4, dimension ≤ 7) the 2nd/3rd line lies up to 128 bytes past the end of `data` — undefined behaviour even though a '
+                  'prefetch never dereferences (Miri: "in-bounds pointer arithmetic failed … only 64 bytes from the end of the allocation")' % adds[0].loc) if adds else
+                 'wrapping_add sites: %d' % len(wr))
+    for fn in ('PackedLevel0::vector_at_unchecked', 'PackedLevel0::vector_at'):
+        b = ctx.body('C17.R5', fn)
+        if b is None:
+            continue
+        bo = flow.Origin(b)
+        fr = [c for c in b.calls if c.callee and c.callee.endswith('from_raw_parts')]
+        ln_ = [flow.render(bo.of_operand(c.args[1])) for c in fr]
+        ctx.inst('C17.R5', _fn(b), 'the vector view has length d', len(fr) == 1 and ln_ == ['arg:self→PackedLevel0.dimension'], 'from_raw_parts length: %s' % ln_)
+    va = ctx.body('C17.R5', 'PackedLevel0::vector_at')
+    if va is not None:
+        r_ = flow.render(flow.Origin(va).of_local(0))
+        ctx.inst('C17.R5', _fn(va), 'checked accessor starts at node_start(id) + v', 'RangeFrom{(PackedLevel0::node_start(arg:self, arg:dense_id) Add' in r_.replace('AddWithOverflow', 'Add') and 'arg:self→PackedLevel0.vector_offset_words' in r_, r_[:160])
+    ns = ctx.body('C17.R5', 'PackedLevel0::node_start')
+    if ns is not None:
+        r_ = flow.render(flow.Origin(ns).of_local(0))
+        ctx.inst('C17.R5', _fn(ns), 'node_start = id·r', 'Some{num::saturating_mul(arg:dense_id, arg:self→PackedLevel0.record_words)}' in r_, r_[:140])
+
+
 def run(ctx, prog):
-    ctx.not_decided = ['value arithmetic of the kernels other than the bounds of their vector loads (reductions, accumulators)', 'record-layout arithmetic of PackedLevel0 (record_ptr / vector offsets)',
+    ctx.not_decided = ['value arithmetic of the kernels other than the bounds of their vector loads (reductions, accumulators)', 'the lemma that turns the checked layout shapes of PackedLevel0 into the bound is a fixed pen-and-paper argument (rule text of R5), not re-derived per run',
                        'use-after-free (excluded by ownership, not by this check)', 'ffi-bench trusted entry points (thorough tier, named exception)']
     ctx.assumptions = list(ctx.assumptions) + [
         'level0.len() == dense_to_origin.len() outside connect_with_layer_neighbors_with_scratch (pairing checked structurally), so a checked accessor returning normally validates its id',
@@ -557,4 +644,5 @@ def run(ctx, prog):
     r2(ctx, prog)
     r3(ctx, prog)
     r4(ctx, prog)
+    r5(ctx, prog)
     ctx.stat('functions_analysed', len(set(i['key'].split(' | ')[1] for i in ctx.instances)))
